@@ -54,7 +54,10 @@ func (s *Schema) randomPaths(r *hx.Rand, t RType, d *Doc) []string {
 	var out []string
 	var walk func(d *Doc, path []string)
 	walk = func(d *Doc, path []string) {
-		if len(path) > 0 && len(path) <= 4 {
+		// directives END at a named field or map key: a directive ending at an array item ("a/*" with a an array) is a corner
+		// the bindings never produce and the library treats inconsistently (items are not consulted, keys below them are):
+		// left out of the generated specs and documented in DESIGN.md
+		if len(path) > 0 && len(path) <= 4 && path[len(path)-1] != "*" {
 			out = append(out, strings.Join(path, "/"))
 		}
 		switch d.Kind {
